@@ -110,4 +110,19 @@ theorem closedRun_rows_balanced (xs : List ClosedEv) : ∀ (s : Sim), (∀ a ∈
       · exact hrows r' h1
       · rw [h1]; exact hbal
 
+/-- … and every agent only moves forward on S → I → R → (no compartment). -/
+theorem closedRun_monotone (xs : List ClosedEv) : ∀ (s : Sim), (∀ a ∈ s.pop, Good a) → s.bad = false →
+    (∀ x ∈ xs, NonnegRands x.nets) → ∀ (i : Nat) (a : Agent), s.pop[i]? = some a →
+      ∃ a', (closedRun s xs).pop[i]? = some a' ∧ rank a.fl ≤ rank a'.fl := by
+  induction xs with
+  | nil => intro s _ _ _ i a h; exact ⟨a, h, Nat.le_refl _⟩
+  | cons x xs ih =>
+      intro s h hb hr i a hget
+      have hx := hr x (List.mem_cons_self ..)
+      have hb' : (closedStep s x).bad = false := by rw [closedStep_bad s x hx]; exact hb
+      obtain ⟨a1, g1, r1, _⟩ := simStep_monotone s ⟨x.births, x.background, [closedCall s x]⟩ h hb' i a hget
+      have hinv : ∀ b ∈ (closedStep s x).pop, Good b := simStep_inv s _ (fun _ => h) hb'
+      obtain ⟨a', g', r'⟩ := ih (closedStep s x) hinv hb' (fun y hy => hr y (List.mem_cons_of_mem _ hy)) i a1 g1
+      exact ⟨a', g', Nat.le_trans r1 r'⟩
+
 end StarsimModel.SimCore
